@@ -389,12 +389,10 @@ func checkHist(c histCase) *vk.Failure {
 	vk.Sample("hist", c)
 	ctx := fmt.Sprintf("dividers=%v %s", div, ctxOf(x, w))
 	nb := len(div) - 1
-	var count []float64
+	var count, countBuf []float64
 	if c.Prefill {
-		count = make([]float64, nb)
-		for i := range count {
-			count[i] = 7
-		}
+		// stale values, spare capacity, inside a sentinel-filled buffer
+		count, countBuf = sliceView(nb, 2)
 	}
 	var got []float64
 	xin, win, din := cloneF(x), cloneF(w), cloneF(div)
@@ -407,6 +405,11 @@ func checkHist(c histCase) *vk.Failure {
 	}
 	if c.Prefill && &got[0] != &count[0] {
 		return vk.Failf("histogram-count-not-reused", "%s", ctx)
+	}
+	if c.Prefill {
+		if ok, i := sliceBufIntact(countBuf, nb, 2); !ok {
+			return vk.Failf("histogram-count-parent-modified", "buffer element %d outside count overwritten %s", i, ctx)
+		}
 	}
 	for i := range x {
 		if xin[i] != x[i] || (w != nil && win[i] != w[i]) {
